@@ -484,3 +484,62 @@ class _projection_u:
         return And(same(attr(old.self, "_frequencies"), attr(a.self, "_frequencies")), same(attr(old.self, "_errors2"), attr(a.self, "_errors2")),
                    *[attr(result, "_binnings")[0] is not bn for bn in attr(a.self, "_binnings")],
                    *[same(attr(x, "_bins"), attr(y, "_bins")) for x, y in zip(attr(old.self, "_binnings"), attr(a.self, "_binnings"))])
+
+
+# ---------------------------------------------------------------------------------------------- adaptive fill (C04, C03)
+
+@contract(H1K + ".fill", props=["C04", "C03"], name=H1K + ".fill[adaptive, any bin count]")
+class _fill_adaptive_u:
+    """one value into an adaptive fixed-width histogram with ANY number (>= 1) of bins, ANY amount of growth: the grid is kept, the
+    value lands in the reported bin, every old content stays on its interval (moved by the number of bins added on the left)"""
+    probe = "quantifier-free"
+
+    def configs():
+        return [{"dtype": "int64", "wk": "default"}, {"dtype": "float64", "wk": "float"}]
+
+    def inputs(b):
+        binning = fixed_width(b, "B", count=None, adaptive=True)
+        c = attr(binning, "_bin_count")
+        b.assume(c >= 1)
+        dtype = b.cfg.dtype
+        freq, err2 = b.tarray("h.freq", (c,), dtype), b.tarray("h.err2", (c,), dtype)
+        missed = b.array("h.missed", (3,), dtype)
+        b.assume(forall(0, c, lambda i: And(freq[i] >= 0, err2[i] >= 0)))
+        nonneg(b, missed)
+        h = b.obj(H1, _binnings=[binning], _frequencies=freq, _errors2=err2, _missed=missed, _dtype=b.dtype(dtype),
+                  _meta_data={"name": None, "axis_names": ("axis0",)}, keep_missed=True, _stats=statistics(b, "h.stats", valid=True))
+        kw = dict(self=h, value=b.real("v"))
+        if b.cfg.wk == "float":
+            w = b.real("w")
+            b.assume(w >= 0)
+            kw["weight"] = w
+        return kw
+
+    @ensures("same_grid_the_value_lands_in_the_reported_bin_old_contents_stay_on_their_intervals")
+    def _(a, old, result):
+        if result is None:
+            return False       # "in a gap": a fixed-width grid has no gaps, such a path must be infeasible
+        ob, nb = attr(old.self, "_binnings")[0], attr(a.self, "_binnings")[0]
+        w, s = attr(ob, "_bin_width"), attr(ob, "_shift")
+        t0, t1, c0, c1 = attr(ob, "_times_min"), attr(nb, "_times_min"), attr(ob, "_bin_count"), attr(nb, "_bin_count")
+        wt = old.weight if hasattr(old, "weight") else 1
+        f0, f1, e0, e1 = Fq(old.self), Fq(a.self), Eq(old.self), Eq(a.self)
+        shift = t0 - t1
+        v = old.value
+        edge = lambda k: (t1 + k) * w + s
+        return And(attr(nb, "_bin_width") == w, attr(nb, "_shift") == s, shift >= 0, c1 >= c0 + shift,
+                   count_of(a.self) == c1, shape_of(e1)[0] == c1,
+                   result >= 0, result < c1, edge(result) <= v, v < edge(result + 1),
+                   forall(0, c1, lambda j: And(
+                       f1[j] == If(And(j >= shift, j < shift + c0), f0[j - shift], 0) + If(j == result, wt, 0),
+                       e1[j] == If(And(j >= shift, j < shift + c0), e0[j - shift], 0) + If(j == result, wt * wt, 0))),
+                   same(elems(attr(old.self, "_missed")), elems(attr(a.self, "_missed"))))
+
+    @ensures("no_more_bins_than_needed")
+    def _(a, old, result):
+        if result is None:
+            return False
+        ob, nb = attr(old.self, "_binnings")[0], attr(a.self, "_binnings")[0]
+        t0, t1, c0, c1 = attr(ob, "_times_min"), attr(nb, "_times_min"), attr(ob, "_bin_count"), attr(nb, "_bin_count")
+        # growth happens on one side only and ends with the bin that holds the value
+        return And(Or(t1 == t0, t1 + c1 == t0 + c0), Implies(t1 < t0, result == 0), Implies(t1 + c1 > t0 + c0, result == c1 - 1))
